@@ -47,8 +47,14 @@ def cases(tier, seed):
     cap = 1500 if quick else 10000
     nrandom = 4000 if quick else 60000
 
+    nmk = [0]
     def mk(kind, L, chains):
-        return dict(kind=kind, L=L, chains=chains, seed=int(rng.integers(1 << 31)))
+        # every seventh chain case uses an identity id other than 0 (the ids 0 and s are swapped throughout)
+        nmk[0] += 1
+        c = dict(kind=kind, L=L, chains=chains, seed=int(rng.integers(1 << 31)))
+        if nmk[0] % 7 == 0:
+            c['oid_identity'] = (5, 9, -1)[(nmk[0] // 7) % 3]
+        return c
 
     for L in range(1, Lmax + 1):
         shapes = hg.chain_shapes(L)
@@ -198,14 +204,18 @@ def run_case(c):
         return dict(failures=fails, nontrivial=len(gd['edges']) >= 2, key=key)
 
     chains_d = c['chains']
-    key = json.dumps([L, chains_d])
-    nontrivial = not (len(chains_d) == 1 and all(o == OID_ID for o in chains_d[0][0]))
+    oid_id = c.get('oid_identity', OID_ID)
+    if oid_id != OID_ID:
+        sw = {OID_ID: oid_id, oid_id: OID_ID}
+        chains_d = [[[sw.get(int(o), int(o)) for o in ch[0]]] + list(ch[1:]) for ch in chains_d]
+    key = json.dumps([L, chains_d, oid_id])
+    nontrivial = not (len(chains_d) == 1 and all(o == oid_id for o in chains_d[0][0]))
     assert any(ch[2] != 0 for ch in chains_d)          # generator invariant: precondition of the property
-    ref = hg.p_clean(hg.chains_poly(chains_d, L, OID_ID))
+    ref = hg.p_clean(hg.chains_poly(chains_d, L, oid_id))
     qual = '' if ref else ':cancelling'
     chains = hg.build_chains(chains_d)
     try:
-        graph = OpGraph.from_opchains(chains, L, OID_ID)
+        graph = OpGraph.from_opchains(chains, L, oid_id)
     except Exception as e:
         name, line, where = hg.exc_info(e)
         if hg.is_final_coeff_assert(e):
@@ -234,7 +244,35 @@ def run_case(c):
     if not hg.p_eq(gp, ref):
         fail('polynomial', f'[[graph]] - [[chains]] = {hg.p_diff(gp, ref)}; chains={chains_d}', f'OpGraph.from_opchains:polynomial{qual}')
     if ok and all(len(w) == L for w in gp):
-        charges = hg.chain_charges(chains_d, L, OID_ID)
+        charges = hg.chain_charges(chains_d, L, oid_id)
         if charges is not None:
-            check_mpo(fail, qual, graph, gp, L, charges, rng)
+            check_mpo(fail, qual, graph, gp, L, charges, rng, oid_id)
+    if not fails and len(chains_d) >= 2 and c['seed'] % 4 == 0:
+        # history: change coefficients on the *same* OpChain objects (switch one term off or on, rescale another) and compile again
+        mod = [list(ch) for ch in chains_d]
+        k0, k1 = [int(x) for x in rng.choice(len(mod), size=2, replace=False)]
+        mod[k0][2] = 0.0 if mod[k0][2] != 0 else 2.0
+        mod[k1][2] = 0.5 if mod[k1][2] != 0.5 else -1.0
+        if any(ch[2] != 0 for ch in mod):
+            for ch_obj, ch in zip(chains, mod):
+                ch_obj.coeff = ch[2]
+            ref2 = hg.p_clean(hg.chains_poly(mod, L, oid_id))
+            try:
+                gp2 = hg.graph_poly(OpGraph.from_opchains(chains, L, oid_id))
+                if not hg.p_eq(gp2, ref2):
+                    fail('polynomial', f'after changing coefficients on the same OpChain objects: [[graph]] - [[chains]] = {hg.p_diff(gp2, ref2)}; chains={mod}',
+                         'OpGraph.from_opchains:polynomial:recompiled')
+            except Exception as e:
+                if not hg.is_final_coeff_assert(e):
+                    fail('returns', f'second compilation of the same OpChain objects raised {type(e).__name__}: {e}; chains={mod}', 'OpGraph.from_opchains:returns:recompiled')
+            # ... and once more for a longer lattice
+            ref3 = hg.p_clean(hg.chains_poly(mod, L + 1, oid_id))
+            try:
+                gp3 = hg.graph_poly(OpGraph.from_opchains(chains, L + 1, oid_id))
+                if not hg.p_eq(gp3, ref3):
+                    fail('polynomial', f'same OpChain objects compiled for length {L + 1} after length {L}: [[graph]] - [[chains]] = {hg.p_diff(gp3, ref3)}; chains={mod}',
+                         'OpGraph.from_opchains:polynomial:recompiled')
+            except Exception as e:
+                if not hg.is_final_coeff_assert(e):
+                    fail('returns', f'compilation of the same OpChain objects for length {L + 1} raised {type(e).__name__}: {e}; chains={mod}', 'OpGraph.from_opchains:returns:recompiled')
     return dict(failures=fails, nontrivial=nontrivial, key=key)
